@@ -438,6 +438,10 @@ static void exec_client(const char* op)
             if ((rt()->valid_video_streams >> s) & 1)
                 alive |= rt()->video[s].source.is_running | rt()->video[s].filter.is_running | rt()->video[s].sink.is_running;
         if (st == DeviceState_Running && !alive) oracle("state-running-but-no-worker-alive");
+        // the same question put to the scheduler instead of the workers' own flags: Running while every thread but the client's has ended
+        int live = 0;
+        for (int t = 1; t < detsched_thread_count(); ++t) { int o = 0, e = 0; if (detsched_thread_pending(t, &o, &e) >= 0) ++live; }
+        if (st == DeviceState_Running && live == 0) oracle("state-running-but-every-worker-thread-has-ended");
         printf("API state -> %s\n", device_state_as_string(st));
     } else if (!strncmp(op, "map ", 4)) {
         do_map(atoi(op + 4));
@@ -651,6 +655,8 @@ static void run_child(char* spec)
         else if (sscanf(g_faults[i], "descfail %d %d", &d, &c) == 2) g_mock.desc_fails[d] = c;
         else if (sscanf(g_faults[i], "stostartfail %d %d", &d, &c) == 2) g_mock.sto_start_fails[d] = c;
         else if (sscanf(g_faults[i], "stostopawait %d", &d) == 1) g_mock.sto_stop_await[d] = 1;
+        else if (sscanf(g_faults[i], "stosetfail %d %d", &d, &c) == 2) g_mock.sto_set_fails[d] = c;
+        else if (!strncmp(g_faults[i], "stoconsumed", 11)) g_mock.sto_reports_consumed = 1;
     }
     detsched_init(&cfg);
     printf("RUN %s", spec);
@@ -673,7 +679,7 @@ int main(void)
         else if (!strncmp(p, "hang ", 5)) g_hang_rounds = atoi(p + 5);
         else if (!strncmp(p, "cosim ", 6)) g_cosim = atoi(p + 6);
         else if (!strncmp(p, "fault ", 6)) { if (g_nfaults < 16) { snprintf(g_faults[g_nfaults], 64, "%s", p + 6); g_nfaults++; } }
-        else if (!strncmp(p, "camempty ", 9) || !strncmp(p, "camstartfail ", 13) || !strncmp(p, "openfail ", 9) || !strncmp(p, "descfail ", 9) || !strncmp(p, "stostartfail ", 13) || !strncmp(p, "stostopawait ", 13)) { if (g_nfaults < 16) { snprintf(g_faults[g_nfaults], 64, "%s", p); g_nfaults++; } }
+        else if (!strncmp(p, "camempty ", 9) || !strncmp(p, "camstartfail ", 13) || !strncmp(p, "openfail ", 9) || !strncmp(p, "descfail ", 9) || !strncmp(p, "stostartfail ", 13) || !strncmp(p, "stostopawait ", 13) || !strncmp(p, "stosetfail ", 11) || !strncmp(p, "stoconsumed", 11)) { if (g_nfaults < 16) { snprintf(g_faults[g_nfaults], 64, "%s", p); g_nfaults++; } }
         else if (!strncmp(p, "reset", 5)) { g_nprog = 0; g_nfaults = 0; g_cosim = 0; }
         else if (!strncmp(p, "prog ", 5)) {
             char* save = 0;
